@@ -136,8 +136,9 @@ def h_receive(client, ids, two_frames):
             check(s_eq(me.remote_settings[k], v), 'not-applied:' + _name(k), None)
             if k == K.MAX_FRAME_SIZE:
                 check(s_eq(me.max_outbound_frame_size, v), 'max-outbound-frame-size-stale', None)
-                check(s_eq(me.streams[1].max_outbound_frame_size, v),
-                      'stream-max-outbound-frame-size-stale', None)
+                for sid_ in sorted(me.streams):
+                    check(s_eq(me.streams[sid_].max_outbound_frame_size, v),
+                          'stream-max-outbound-frame-size-stale', sid_)
             if k == K.HEADER_TABLE_SIZE:
                 check(s_eq(enc.header_table_size, v), 'encoder-table-size-stale', None)
             if k == K.INITIAL_WINDOW_SIZE:
